@@ -168,6 +168,36 @@ fn check_inside_protected(g: &mut Gen, ctx: &mut Ctx) -> CaseResult {
     Ok(())
 }
 
+/// Protected headers obtained by decoding a carrier (they retain wire bytes, unlike those the
+/// byte-level decoder of `ProtectedHeader` itself yields): byte-level encoding == serialising the
+/// `Value` form, for every retained encoding (zero-length, non-minimal, indefinite, unsorted).
+fn check_decoded_protected(g: &mut Gen, ctx: &mut Ctx) -> CaseResult {
+    use coset::{AsCborValue, CborSerializable};
+    let item = crate::gen::gen_msg(g, Kind::Sign1, &mut Faults::none(), 1);
+    let (b, enc) = styled(&item, g, StyleOpts::ALL);
+    if m_msg(Kind::Sign1, &enc, &mut MCtx::default()).is_err() {
+        return Ok(());
+    }
+    let v = coset::CoseSign1::from_slice(&b).map_err(|e| format!("valid COSE_Sign1 rejected: {:?}", e))?;
+    let mut ps = vec![v.protected.clone()];
+    for h in [&v.unprotected, &v.protected.header] {
+        for cs in &h.counter_signatures {
+            ps.push(cs.protected.clone());
+        }
+    }
+    ctx.class("decoded-protected");
+    for p in ps {
+        let bytes = p.clone().to_vec().map_err(|e| format!("decoded ProtectedHeader fails to encode: {:?}", e))?;
+        let via = serialise(&p.clone().to_cbor_value().map_err(|e| format!("decoded ProtectedHeader fails to convert: {:?}", e))?).map_err(|_| "serialise")?;
+        ctx.nontrivial(hash_bytes(&[&b"dp"[..], &bytes, p.original_data.as_deref().unwrap_or(&[])].concat()));
+        ctx.sample_with(|| format!("decoded ProtectedHeader retaining {}: to_vec vs serialise(to_cbor_value)", hex_trunc(p.original_data.as_deref().unwrap_or(&[]), 32)));
+        ensure!(bytes == via, "ProtectedHeader (retained bytes {}): to_vec gives {} but serialising to_cbor_value gives {}", hex_trunc(p.original_data.as_deref().unwrap_or(&[]), 60), hex_trunc(&bytes, 60), hex_trunc(&via, 60));
+        // and what it emits is exactly one item that its own decoder accepts
+        ensure!(parse_one(&bytes).is_ok(), "ProtectedHeader::to_vec output {} is not exactly one CBOR item", hex_trunc(&bytes, 60));
+    }
+    Ok(())
+}
+
 /// Values nested right at the CBOR parser's recursion limit (256), inside an unprotected header,
 /// through the untagged and the tagged entry points: both API layers must draw the line at the same depth.
 fn check_depth_boundary(g: &mut Gen, ctx: &mut Ctx) -> CaseResult {
@@ -245,6 +275,9 @@ fn case(g: &mut Gen, ctx: &mut Ctx) -> CaseResult {
     }
     if g.ratio(1, 12) {
         return check_depth_boundary(g, ctx);
+    }
+    if g.ratio(1, 12) {
+        return check_decoded_protected(g, ctx);
     }
     let types = all_types();
     let t = &types[g.below(types.len())];
